@@ -128,3 +128,22 @@ class PredLogged:
     def __call__(self, ca, t):
         self.log.append((np.asarray(ca).tolist(), int(t)))
         return self.f(ca, t)
+
+
+# ---- rules that write into their argument (the property quantifies over all callables)
+class Scribble:
+    """computes v = f(n, c, t) FIRST, then overwrites its neighbourhood argument in place, returns v.
+    A rule must receive its own copy of the neighbourhood: what later cells receive may not change.
+    The model passes values, so the model-side rule is the underlying f.  Works for 1D arrays and for
+    2D (possibly masked) neighbourhoods; read-only arguments are left alone."""
+    def __init__(self, f, fill=77):
+        self.f, self.fill = f, fill
+
+    def __call__(self, n, c, t):
+        v = self.f(n, c, t)
+        try:
+            target = n.data if isinstance(n, np.ma.MaskedArray) else n
+            target[...] = self.fill
+        except (ValueError, TypeError, AttributeError):
+            pass
+        return v
